@@ -15,7 +15,7 @@ MANIFEST_ENTRY = {
 }
 
 
-def tasks(tier, seed):
+def _tasks_core(tier, seed):
     return [
         func("bt.backtest.Backtest.run"),
         *UPDATE_ALL,
@@ -36,3 +36,11 @@ def replay(o):
     from pyvc.concrete import replay_scenario
 
     return replay_scenario(o)
+
+
+# functions under contract elsewhere whose obligations carry this property's tag as well (found by tools/tagaudit.py): run here too, so that a change
+# which breaks one of them is reported by this check and not only by a neighbour
+def tasks(tier, seed):
+    return _tasks_core(tier, seed) + [
+        func("bt.core.StrategyBase.allocate"),
+    ]
